@@ -52,7 +52,8 @@ RULE = ("one case = one generated multi-player game history (1-4 players, 1-3 ba
 PROBES = ["turn_change", "restore_with_progress", "extra_ball", "early_end_game", "new_game", "players_3plus",
           "dispatch_live", "dispatch_transient", "dispatch_dead_in_game", "dispatch_no_game", "hook_post",
           "hold_window", "lb_complete", "lb_timeout", "dl_fired", "timer_tick", "m2_restart_next_ball",
-          "histories_differ", "may_applied", "may_skipped", "op_on_timer_deadline", "mode_started_while_ball_ending"]
+          "histories_differ", "may_applied", "may_skipped", "op_on_timer_deadline", "mode_started_while_ball_ending",
+          "sq_step", "sq_pending_at_ball_end", "sg2_rotate_enabled", "sg2_rotate_disabled"]
 REAL = ["mpf.core.player.Player", "mpf.modes.game.code.game.Game", "mpf.core.mode.Mode / ModeController",
         "mpf.devices.logic_blocks (Counter, Accrual, Sequence)", "mpf.devices.shot / shot_group / shot_profile",
         "mpf.devices.achievement", "mpf.devices.timer", "mpf.core.enable_disable_mixin",
@@ -96,7 +97,9 @@ FAMILIES = [
     ("shots", 5, ["sw:s_sh_a", "sw:s_sh_b", "sw:s_sh_c", "sw:s_sh_a", "ev_sh_a_hit", "ev_sh_a_advance", "ev_sh_a_reset",
                   "ev_sh_b_disable", "ev_sh_b_restart", "ev_sh_b_jump2", "ev_sh_c_enable", "ev_sh_c_enable",
                   "ev_sh_c_disable", "ev_sh_c_jump1"]),
-    ("sg", 2, ["ev_sg_rotate", "ev_sg_rotate_left", "ev_sg_reset", "ev_sg_enable", "ev_sg_disable"]),
+    ("sg", 3, ["ev_sg_rotate", "ev_sg_rotate_left", "ev_sg_reset", "ev_sg_enable", "ev_sg_disable",
+               "ev_sg2_rotate", "ev_sg2_rotate", "ev_sg2_rot_on", "ev_sg2_rot_off"]),
+    ("sq", 2, ["ev_sq_30", "ev_sq_20", "ev_sq_120", "ev_sq_2"]),
     ("ach", 3, ["ev_ach1_start", "ev_ach1_stop", "ev_ach1_complete", "ev_ach1_disable", "ev_ach1_enable", "ev_ach1_reset",
                 "ev_ach1_select", "ev_ach1_unselect", "ev_ach2_start", "ev_ach2_stop", "ev_ach2_complete",
                 "ev_ach2_enable", "ev_ach2_enable", "ev_ach2_disable"]),
@@ -117,6 +120,9 @@ COMBOS = [
     ["ev_sh_c_enable", "sw:s_sh_c", "ev_sg_rotate"],
     ["ev_t1_start", "ev_t1_add", "ev_t1_add", "ev_t1_add"],
     ["ev_m2_start", "ev_c_m2", "ev_c_m2"],
+    ["ev_sq_30", "ev_sq_20", "ev_sq_120"],
+    ["ev_sg2_rot_on", "sw:s_sh_a", "ev_sg2_rotate", "ev_sg2_rotate"],
+    ["sw:s_sh_b", "ev_sg2_rotate"],
 ]
 DTS = [0.0, 0.0, 0.001, 0.01, 0.05, 0.1, 0.25, 0.3, 0.7, 1.5]
 
@@ -257,6 +263,10 @@ def on_crash(ctx, crash):
     if "_logic_block_timeout" in tb:
         return ("timeout_leak", "logic_block_timeout fired with no player loaded (crash)",
                 "a logic block timeout armed during a player's ball fired after the mode was unloaded: %s" % exc)
+    if "_handle_score_queue" in tb and "NoneType" in tb:
+        return ("unjustified_change", "score queued after ball_ending stopped waiting is worked off after the game ended (crash)",
+                "a score queue entry queued while the last ball was already ending is worked off after the game "
+                "stopped: machine.game is None -> %s" % exc)
     if "is not supposed to run outside of game" in tb:
         if ctx.info.get("late_start"):
             return ("binding", "%s was started while the ball was ending and outlives the game" % ctx.info["late_start"],
@@ -307,6 +317,7 @@ class Harness:
         self.done = False
         self.end_m2 = {}             # player -> was m2 live when this player's last ball began to end (None: unclear)
         self.m2_touch = {}           # player -> m2 start/stop events dispatched while that player was up since then
+        self.sq_block = False        # the score queue's ball_ending handler has started (ball end waits for the queue)
         self.reload_race = {}        # mode -> it was started again before the clean-up of its previous stop ran
         self.ball_phase = "none"     # "ending" from ball_will_end until the next ball_will_start
         self.late_start = {}         # mode -> it was started while the ball was ending (and is still loaded)
@@ -334,8 +345,13 @@ class Harness:
             if guard > 2000:
                 raise AssertionError("op chain did not finish")
         sim.run_quiet(6.0)
+        # liveness bound from the configuration: every queued point costs at most one 200 ms chime step
+        left = sum(sum(v) for v in self.dev["sq"].values())
+        if left and not self.tainted and self.m.game is not None:
+            sim.run_quiet(1.0 + 0.2 * left)
         if not self.tainted:
             self.check_all("final")
+            self.check_sq_delivered(None, "final")
 
     def install(self):
         from sim.tap import EventLog
@@ -378,8 +394,13 @@ class Harness:
             m.events.add_handler(name, mk(self.on_life, name), priority=PRE)
             m.events.add_handler(name, mk(self.fire_armed_hi, name), priority=HI)
             m.events.add_handler(name, mk(self.fire_armed_lo, name), priority=LO)
+        # runs immediately before the score queue's own ball_ending handler (priority 1) starts to wait
+        m.events.add_handler("ball_ending", self.sq_block_entered, priority=2)
         for ev, pr, ms in self.cfg["holds"]:
             m.events.add_handler(ev, self.mk_hold(ev, pr, ms), priority=(HI if pr == "hi" else LO) - 1)
+
+    def sq_block_entered(self, **kwargs):
+        self.sq_block = True
 
     def mk_hold(self, ev, pr, ms):
         def hold(queue=None, **kwargs):
@@ -499,6 +520,8 @@ class Harness:
         num, value, prev, change = kw["player_num"], kw["value"], kw["prev_value"], kw["change"]
         ctx.log("var", var, num, repr(value), repr(prev), repr(change), t=self.sim.now)
         g = self.m.game
+        if g is None and var == "sq_pts":
+            return      # the last queued chime steps of a game that is over: nobody's turn, nothing to compare with
         if g is None:
             self.bad("isolation", "player variable changed while no game is running: %s" % var,
                      "player_%s %r posted after the game ended" % (var, kw))
@@ -545,6 +568,31 @@ class Harness:
                          % (num, kw, ps["vars"].get("extra_balls")))
             ps["vars"]["extra_balls"] -= 1
             ctx.probe("extra_ball")
+            return
+        if var == "sq_pts":
+            # the score queue delivers queued points digit by digit, outside any dispatch: every step must be
+            # charged to points this very player earned (queued during his own ball) and has not received yet
+            pool = self.dev["sq"].setdefault(num, [0, 0, 0])
+            if not isinstance(change, int) or change <= 0 or sum(pool) < change:
+                owed = dict((k, list(v)) for k, v in sorted(self.dev["sq"].items()) if sum(v))
+                late = [q for q in sorted(self.dev["sq"]) if q != num and self.dev["sq"][q][2] >= change]
+                msg = ("score queue added %r to player %r (player up: %r) who has %r undelivered queued points; "
+                       "undelivered [certain, possible, queued after the ball end stopped waiting] per player: %r"
+                       % (change, num, curp, pool, owed))
+                if late and isinstance(change, int) and change > 0:
+                    self.bad("unjustified_change", "score queued after ball_ending stopped waiting is credited to the next player",
+                             msg + " - the points player %d queued while his game mode was stopping went to player %r" % (late[0], num))
+                self.bad("unjustified_change", "queued score credited to a player who did not earn it", msg)
+            rest = change
+            for i in (0, 1, 2):
+                take = min(pool[i], rest)
+                pool[i] -= take
+                rest -= take
+            ps = self.shadow(num)
+            ps["vars"]["sq_pts"] = ps["vars"].get("sq_pts", 0) + change
+            ctx.probe("sq_step")
+            if num != curp:
+                ctx.probe("sq_step_after_turn")
             return
         if var == M.TICK and change == 1:
             att = self.dev["attached"]["m1"]
@@ -634,6 +682,10 @@ class Harness:
             return
         self.cur = {"name": name, "cls": {mn: self.mode_class(mn) for mn in MODES}, "pnum": self.cur_pnum(),
                     "att": dict(self.dev["attached"])}
+        # A score queue entry keeps the ball from ending if it is queued before the queue's ball_ending handler
+        # starts to wait, or while that handler is still waiting (queue not empty).  Once the handler has been
+        # released (queue ran empty during ball_ending) a new entry is worked off after the ball ended.
+        self.dev["sq_gate"] = bool(self.sq_block and self.m.score_queues["sq_pts"]._score_queue_empty.is_set())
         if name in ("ev_m2_start", "ev_m2_stop"):
             self.m2_touch[self.cur["pnum"]] = self.m2_touch.get(self.cur["pnum"], 0) + 1
 
@@ -666,6 +718,8 @@ class Harness:
             ctx.probe("dispatch_transient")
         elif DEAD in kinds:
             ctx.probe("dispatch_dead_in_game")
+        if name == "ev_sg2_rotate" and effs:
+            ctx.probe("sg2_rotate_enabled" if self.dev["sg2_rot"] else "sg2_rotate_disabled")
         may = [e for e in effs if not e[0]]
         if not may:
             emits = []
@@ -727,6 +781,10 @@ class Harness:
         t1 = self.m.timers["t1"]
         if bool(t1.running) != bool(dev["t1_running"]):
             return (None, "t1.running", dev["t1_running"], t1.running)
+        if dev["attached"]["m1"] is not None:
+            rot = bool(self.m.shot_groups["sg2"].rotation_enabled)
+            if rot != bool(dev["sg2_rot"]):
+                return (None, "sg2.rotation_enabled", dev["sg2_rot"], rot)
         cnp = self.m.counters["c_np"]
         act = None if cnp._state is None else [cnp._state.value, bool(cnp._state.enabled), bool(cnp._state.completed)]
         exp = dev["c_np"] and [dev["c_np"][0], bool(dev["c_np"][1]), bool(dev["c_np"][2])]
@@ -853,6 +911,8 @@ class Harness:
         ctx.log("life", name, curp, t=self.sim.now)
         self.phase = name
         g = self.m.game
+        if name in ("ball_will_end", "ball_will_start"):
+            self.sq_block = False
         if name == "ball_will_end":
             self.ball_phase = "ending"
         elif name in ("ball_will_start", "game_ended"):
@@ -867,6 +927,8 @@ class Harness:
             self.progress_by_player = {}
             self.end_m2 = {}
             self.m2_touch = {}
+            self.check_sq_delivered(None, "game_will_start")
+            self.dev["sq"] = {}
             if self.game_no > 1:
                 ctx.probe("new_game")
         elif name == "player_added":
@@ -899,6 +961,10 @@ class Harness:
                         now = canon_actual(p)
                         now.pop("gift", None)       # the machine's one intended cross-player variable (player: 1)
                         self.snap[1][q].pop("gift", None)
+                        # R-queued-score-arrives-late: points a player queued in his own ball may reach him after
+                        # his turn; that every step is his own is enforced by the pool rule in on_var_event
+                        now.pop("sq_pts", None)
+                        self.snap[1][q].pop("sq_pts", None)
                         if now != self.snap[1][q]:
                             ks = [k for k in sorted(set(now) | set(self.snap[1][q])) if now.get(k) != self.snap[1][q].get(k)]
                             self.bad("isolation", "snapshot of another player's variables changed during a turn: %s" % ks[0],
@@ -909,6 +975,8 @@ class Harness:
             if self.cfg["m2_restart"] and self.dev["attached"]["m2"] is not None:
                 ctx.probe("m2_restart_next_ball")
         elif name == "ball_ending":
+            if sum(self.dev["sq"].get(curp, [0, 0, 0])):
+                ctx.probe("sq_pending_at_ball_end")
             c = self.mode_class("m2")
             self.end_m2[curp] = True if c == LIVE else (False if c == DEAD else None)
             self.m2_touch[curp] = 0
@@ -930,6 +998,7 @@ class Harness:
             self.check_all("life_late:" + name)
             if name == "ball_started":
                 self.check_restart_on_next_ball()
+                self.check_sq_delivered(self.cur_pnum(), "ball_started")
         self._fire(name, "lo")
 
     def _fire(self, name, prio):
@@ -942,6 +1011,14 @@ class Harness:
                 self.ctx.probe("hook_post")
                 for e in a["events"]:
                     self.stim(e)
+
+    def check_sq_delivered(self, num, where):
+        """What a player earned through the score queue has arrived when his next ball starts / when the run ends."""
+        for q in sorted(self.dev["sq"]):
+            if (num is None or q == num) and self.dev["sq"][q][0] > 0:
+                self.bad("restore", "queued score never delivered to the player who earned it",
+                         "%s: player %d earned %d queued points (score_queue sq_pts) which never arrived"
+                         % (where, q, self.dev["sq"][q][0]))
 
     def check_restart_on_next_ball(self):
         """restart_on_next_ball is tracked per player: m2 runs in this ball iff it ran when *this* player's last ball ended."""
